@@ -13,6 +13,7 @@ import cmath
 import math
 import common
 from common import enc, dec, close, err_kind
+from props import c13_hist as hist
 
 ID = "C13"
 RULE = ("dense parameter grids (cut-off/centre in [1e-3, pi-1e-3], bandwidth in [1e-3, 1], delays 1..12, "
@@ -173,6 +174,10 @@ def generate(rng, tier, scale=1):
         else:
             cases.append({"entry": "stream", "design": "comb", "strategy": rng.choice(["fb", "ff"]), "delay": rng.randint(1, 5),
                           "param": [_f(rng.randint(-15, 15) / 16.0 or 0.5) for _ in range(n)], "take": n + 1})
+    # histories of designs sharing parameter objects / numbers of different types; long delays and long runs in the
+    # time domain; one comb filter object run on several signals at once (harness/props/c13_hist.py)
+    cases.extend(hist.gen_hist(rng, tier, scale))
+    cases.extend(hist.gen_long(rng, tier, scale))
     return cases
 
 
@@ -229,6 +234,12 @@ def _param(p):
 def impl(c):
     import audiolazy as al
     e = c["entry"]
+    if e == "hist":
+        return hist.impl_hist(c)
+    if e == "combhist":
+        return hist.impl_combhist(c)
+    if e == "run":
+        return hist.impl_run(c)
     try:
         if e in ("lowpass", "highpass"):
             cut = _fl(c["cutoff"])
@@ -239,7 +250,7 @@ def impl(c):
         if e == "comb":
             p = _fl(c["param"])
             filt = al.comb[c["strategy"]](c["delay"], p)
-            xs = [_fl(x) for x in c["xs"]]
+            xs = hist.xs_of(c)
             return {"num": [enc(float(x)) for x in filt.numerator], "den": [enc(float(x)) for x in filt.denominator],
                     "out": [enc(float(y)) for y in filt(xs)]}
         if e == "gammatone":
@@ -283,6 +294,16 @@ def impl(c):
 
 
 def request(c):
+    if c["entry"] == "hist":
+        return hist.request_hist(c)
+    if c["entry"] == "combhist":
+        return hist.request_combhist(c)
+    if c["entry"] == "run":
+        return hist.request_run(c)
+    if c["entry"] == "comb" and "sig" in c:
+        r = {k: v for k, v in c.items() if k != "sig"}
+        r["xs"] = [_f(x) for x in hist.xs_of(c)]
+        return r
     if c["entry"] != "stream":
         return dict(c)
     d, n = c["design"], c["take"]
@@ -430,6 +451,12 @@ def _check_section(name, obs, model, w, out):
 def _problems(c, io, drv):
     out = []
     e = c["entry"]
+    if e == "hist":
+        return hist.problems_hist(c, io, drv)
+    if e == "combhist":
+        return hist.problems_combhist(c, io, drv)
+    if e == "run":
+        return hist.problems_run(c, io, drv)
     name = e + "." + str(c.get("strategy", ""))
     if "err" in drv:
         if io.get("err") != drv["err"]:
@@ -446,8 +473,8 @@ def _problems(c, io, drv):
         if not _close_list(io["out"], drv["run"], TOL):
             out.append(("model", name + ":run", "output %r, difference equation on model coefficients %r" % (io["out"][:8], drv["run"][:8])))
         if not _close_list(io["out"], drv["spec"]["out"], TOL):
-            out.append(("spec", name + ":difference-equation", "output %r required %r" % (
-                [_fl(x) for x in io["out"]][:10], [_fl(x) for x in drv["spec"]["out"]][:10])))
+            out.append(("spec", name + ":difference-equation", "delay %d, %d input samples: %s" % (
+                c["delay"], len(io["out"]), hist._first_diff(io["out"], drv["spec"]["out"]))))
         if c["strategy"] == "tau":
             d = c["delay"]
             den = [_fl(x) for x in io["den"]]
@@ -508,12 +535,31 @@ def classify(c, io, drv):
 
 
 def nontrivial(c, io):
+    if c["entry"] == "hist":
+        return any("secs" in st for st in io["steps"]) and not any("err" in st for st in io["steps"])
     return "err" not in io
 
 
 def tally(eng, c, io):
     e = c["entry"]
+    if e == "hist":
+        eng.count("entry", "hist")
+        for d in c["dsgs"]:
+            eng.count("hist_design", d["kind"] + "." + str(d.get("strategy", "")))
+        hist.tally_hist(eng, c, io)
+        return
+    if e == "run":
+        eng.count("entry", "run." + c["design"]["entry"] + "." + c["design"]["strategy"])
+        if "err" in io:
+            eng.count("impl_error", io["err"])
+        hist.tally_long(eng, c, io)
+        return
     eng.count("entry", e + ("." + c["design"] if e == "stream" else "") + "." + str(c.get("strategy", "")))
+    if e == "combhist" or (e == "comb" and "sig" in c):
+        hist.tally_long(eng, c, io)
+        if "err" in io:
+            eng.count("impl_error", io["err"])
+        return
     if "err" in io:
         eng.count("impl_error", io["err"])
         return
@@ -584,6 +630,20 @@ def _simpler(v):
 
 def shrink(c):
     e = c["entry"]
+    if e == "hist":
+        yield from hist.shrink_hist(c)
+        return
+    if e == "combhist":
+        yield from hist.shrink_combhist(c)
+        return
+    if e == "run":
+        yield from hist.shrink_run(c)
+        return
+    if e == "comb" and "sig" in c:
+        yield from hist.shrink_comb_sig(c)
+        for v in _simpler(c["param"]):
+            yield dict(c, param=_f(v))
+        return
     if e == "stream":
         for k in ("cutoff", "freq", "bandwidth", "param"):
             if isinstance(c.get(k), list) and len(c[k]) > 1:
@@ -612,6 +672,8 @@ def shrink(c):
 
 def neighbours(c):
     e = c["entry"]
+    if e in ("hist", "combhist", "run"):
+        return
     for k in ("cutoff", "freq", "bandwidth", "param"):
         if k in c and not isinstance(c[k], list):
             v = _fl(c[k])
